@@ -684,10 +684,18 @@ def run_replay(prop, path):
         return 2
     print("replay case:", json.dumps(case, default=str)[:1000])
     print("observed:", json.dumps(obs, default=str)[:1000])
-    if fails:
-        for fl in fails:
+    known = load_known_findings(prop.id)
+    unlisted = []
+    for fl in fails:
+        e = match_known(prop, known, case, fl)
+        if e is not None:
+            print(f"KNOWN-FINDING: property={prop.id} {e['id']}: {e['what'][:200]}")
+        else:
+            unlisted.append(fl)
+    if unlisted:
+        for fl in unlisted:
             print("FAILS:", json.dumps(fl, default=str)[:600])
         print(f"VIOLATION property={prop.id} replay={os.path.relpath(path, VERIF)}")
         return 1
-    print("replay: property holds on this input now")
+    print("replay: property holds on this input now" + (" (apart from listed findings)" if fails else ""))
     return 0
